@@ -56,54 +56,70 @@ SizeCases == {Base(n - StrippedOver, 0 - 1) : n \in {999999, 1000000, 1000001}} 
              \cup {Base(1000000 - StrippedOver, 500), Base(1000001 - StrippedOver, 500)}   \* stripped on the limit, total above
 
 TxOf(ins, outs) == [version |-> V1, ins |-> ins, outs |-> outs, lock |-> Zero32N]
-Coins == {"BTC", "GRS"}
-Cases == UNION {
+\* (binary unions, not UNION over the coins: TLC builds a binary union by sorting, a generalised one by
+\* testing membership element by element)
+CasesOf(c) ==
    {[coin |-> c, tx |-> TxOf(ins, outs)] : ins \in FewIns, outs \in OutLists3(MaxMoney(c))}
    \cup {[coin |-> c, tx |-> TxOf(ins, outs)] : ins \in InLists, outs \in FewOuts(MaxMoney(c))}
-   \cup {[coin |-> c, tx |-> t] : t \in SizeCases} : c \in Coins }
+   \cup {[coin |-> c, tx |-> t] : t \in SizeCases}
+Cases == CasesOf("BTC") \cup CasesOf("GRS")
 
-VARIABLE case
-vars == <<case, cvars>>
+VARIABLES case,     \* the case being examined
+          facts     \* what TxCheck says about it, computed once when the case is picked
+vars == <<case, facts, cvars>>
+
+Facts(t, M) == [defects |-> Defects(t, M), mustAccept |-> MustAccept(t, M),
+                stripped |-> StrippedSize(t), total |-> TotalSize(t), coinbase |-> IsCoinbase(t),
+                badValue |-> BadValue(t, M), badTotal |-> BadTotal(t, M),
+                finalOver |-> ~Leq(Total(t.outs, Len(t.outs)), M)]
+VerdictOf(f) == IF f.defects # {} THEN "reject" ELSE IF f.mustAccept THEN "accept" ELSE "any"
 
 ShowVal(v) == [neg |-> v.neg, mag |-> v.mag]
 ShowCIn(x) == [hash |-> Show(x.hash), index |-> x.index, script |-> Show(x.script), seq |-> x.seq,
                wit |-> [k \in 1..Len(x.wit) |-> Show(x.wit[k])]]
 Record ==
-  LET M == MaxMoney(case.coin) t == case.tx IN
-  [k |-> "chk", coin |-> case.coin, maxmoney |-> M,
+  LET M == MaxMoney(case'.coin) t == case'.tx IN
+  [k |-> "chk", coin |-> case'.coin, maxmoney |-> M,
    version |-> t.version, lock |-> t.lock,
    ins |-> [i \in 1..Len(t.ins) |-> ShowCIn(t.ins[i])],
    outs |-> [j \in 1..Len(t.outs) |-> [value |-> ShowVal(t.outs[j].value), script |-> Show(t.outs[j].script)]],
-   verdict |-> Verdict(t, M),
-   defects |-> Defects(t, M),
-   coinbase |-> IsCoinbase(t),
-   stripped |-> StrippedSize(t), total |-> TotalSize(t)]
+   verdict |-> VerdictOf(facts'),
+   defects |-> facts'.defects,
+   coinbase |-> facts'.coinbase,
+   stripped |-> facts'.stripped, total |-> facts'.total]
 
 NCH == 128
 CaseSeq == SetToSeq(Cases)
-Init == /\ case \in 0..(NCH - 1)
+Init == /\ case \in 0..(NCH - 1) /\ facts = <<>>
         /\ obj = <<>> /\ coin = "" /\ calls = 0 - 1 /\ result = "none"
-Next == \/ /\ calls = 0 - 1
-           /\ \E j \in {j \in 1..Len(CaseSeq) : j % NCH = case} :
-                /\ case' = CaseSeq[j]
-                /\ obj' = CaseSeq[j].tx /\ coin' = CaseSeq[j].coin /\ calls' = 0 /\ result' = "none"
-        \/ /\ calls \in 0..2 /\ CNext /\ UNCHANGED case
-           /\ (Emit /\ calls = 0 /\ result' \in {"accept", "reject"}) => PrintT(ToJson(Record))
+Pick == /\ calls = 0 - 1
+        /\ \E j \in {j \in 1..Len(CaseSeq) : j % NCH = case} :
+              /\ case' = CaseSeq[j]
+              /\ obj' = CaseSeq[j].tx /\ coin' = CaseSeq[j].coin /\ calls' = 0 /\ result' = "none"
+              /\ facts' = Facts(CaseSeq[j].tx, MaxMoney(CaseSeq[j].coin))
+        /\ Emit => PrintT(ToJson(Record))
+\* two calls deep: every call, and every call after every call
+Calls == /\ calls \in 0..1 /\ CNext /\ UNCHANGED <<case, facts>>
+Next == Pick \/ Calls
 Spec == Init /\ [][Next]_vars
 
 \* ---------------------------------------------------------------- lemmas
 Picked == calls >= 0
+Fresh == calls = 0            \* lemmas about the transaction itself are evaluated once per case
 M0 == MaxMoney(coin)
 \* no transaction is under both obligations
-Disjoint == Picked => ~(MustReject(obj, M0) /\ MustAccept(obj, M0))
+Disjoint == Fresh => ~(facts.defects # {} /\ facts.mustAccept)
 \* ... and the two together leave only the size gap open
-OnlySizeGap == (Picked /\ Verdict(obj, M0) = "any") => (StrippedSize(obj) <= MaxSize /\ TotalSize(obj) > MaxSize)
-StrippedLeqTotal == Picked => StrippedSize(obj) <= TotalSize(obj)
+OnlySizeGap == (Fresh /\ VerdictOf(facts) = "any") => (facts.stripped <= MaxSize /\ facts.total > MaxSize)
+StrippedLeqTotal == Fresh => facts.stripped <= facts.total
 \* for values that are each in range the running total crosses the cap iff the final total does
-CumulativeIffFinal == (Picked /\ ~BadValue(obj, M0)) =>
-                         (BadTotal(obj, M0) <=> ~Leq(Total(obj.outs, Len(obj.outs)), M0))
+CumulativeIffFinal == (Fresh /\ ~facts.badValue) => (facts.badTotal <=> facts.finalOver)
+\* the object machine's check() (which evaluates TxCheck!Verdict itself) agrees with the cached facts
+CheckAgrees == (calls = 1 /\ result \in {"accept", "reject"}) =>
+                  (VerdictOf(facts) = "any" \/ result = VerdictOf(facts))
 \* the caps are the published ones: 21,000,000 and 105,000,000 coins of 10^8 units
-CapsRight == /\ MaxMoney("BTC") = <<16384, 23047, 30192, 7>>          \* 0x000775F05A074000 = 2,100,000,000,000,000
+CapsRight == (calls = 0 - 1) =>
+             /\ MaxMoney("BTC") = <<16384, 23047, 30192, 7>>          \* 0x000775F05A074000 = 2,100,000,000,000,000
              /\ MaxMoney("GRS") = <<16384, 49700, 19889, 37>>         \* 0x00254DB1C2244000 = 10,500,000,000,000,000
 \* no call changes the transaction
 NoEffect == Picked => (obj = case.tx /\ coin = case.coin)
